@@ -22,6 +22,9 @@ type Case struct {
 	Schemas map[string]string `json:"schemas"` // name -> raw JSON schema text; "Root" is the entry
 	Value   string            `json:"value"`
 	Rep     string            `json:"rep"`
+	// Direction: "" | request | response: every mode validates as a request / as a response (read-only and
+	// write-only rules apply); the verdict still has to be the same in every mode
+	Direction string `json:"direction,omitempty"`
 }
 
 func TestMain(m *testing.M) {
@@ -126,7 +129,14 @@ func check(c Case) (o h.Outcome) {
 	for _, m := range modes {
 		var e error
 		val := mk()
-		if !o.Guarded("VisitJSON/"+m.name, func() { e = root.VisitJSON(val, m.opts()...) }) {
+		mopts := m.opts()
+		switch c.Direction {
+		case "request":
+			mopts = append(mopts, openapi3.VisitAsRequest())
+		case "response":
+			mopts = append(mopts, openapi3.VisitAsResponse())
+		}
+		if !o.Guarded("VisitJSON/"+m.name, func() { e = root.VisitJSON(val, mopts...) }) {
 			return
 		}
 		ok := e == nil
@@ -158,6 +168,12 @@ func check(c Case) (o h.Outcome) {
 				return
 			}
 		}
+	}
+	if c.Direction != "" {
+		// the matching helpers have no direction: their verdict is about another reading of the schema
+		o.Class("direction:%s", c.Direction)
+		o.NonTrivial = maxMembers >= 1
+		return
 	}
 	var match bool
 	val := mk()
@@ -263,6 +279,8 @@ func gen(t *rapid.T) Case {
 		depth = rapid.IntRange(2, 4).Draw(t, "depth")
 	}
 	o := schemagen.Options{Depth: depth, Formats: true, OddNames: true}
+	direction := rapid.SampledFrom([]string{"", "", "request", "response"}).Draw(t, "direction")
+	o.ReadWrite = direction != ""
 	schemas := map[string]string{}
 	var inlined map[string]any // the same schema with references inlined, for value generation
 	switch rapid.IntRange(0, 3).Draw(t, "shape") {
@@ -295,7 +313,7 @@ func gen(t *rapid.T) Case {
 	}
 	v := schemagen.GenValue(inlined, depth+2).Draw(t, "value")
 	rep := rapid.SampledFrom([]string{"float64", "number"}).Draw(t, "rep")
-	return Case{Schemas: schemas, Value: jv.Canon(v), Rep: rep}
+	return Case{Schemas: schemas, Value: jv.Canon(v), Rep: rep, Direction: direction}
 }
 
 func genDiscriminated(t *rapid.T, o schemagen.Options, schemas map[string]string) (map[string]any, map[string]any) {
